@@ -307,37 +307,8 @@ func c20History(t *testing.T, rec *vlib.Rec, idx int) {
 	h := &c01Hist{t: t, rec: rec, idx: idx, r: r, n: n, apiUU: map[string][]byte{}, looped: map[string]map[string]bool{}, events: map[string]int{}, tolerateDown: true}
 	c := &c20Run{h: h, rec: rec, overlap: map[string]bool{}, active: map[string]int{}}
 	// schedule diversification through the lock-free yield points in gobgp
-	yseed := r.Uint64()
-	verifHookPtr.Store(&verifHooks{yield: func(point, peer string) {
-		x := uint64(c.yieldN.Add(1))*0x9E3779B97F4A7C15 ^ yseed
-		x ^= x >> 29
-		x *= 0xBF58476D1CE4E5B9
-		x ^= x >> 32
-		for {
-			old := c.sig.Load()
-			if c.sig.CompareAndSwap(old, old*1099511628211^uint64(len(point))^uint64(len(peer))<<8^uint64(point[0])<<16) {
-				break
-			}
-		}
-		switch x & 7 {
-		case 0, 1, 2:
-			runtime.Gosched()
-		case 3:
-			runtime.Gosched()
-			runtime.Gosched()
-			runtime.Gosched()
-		case 4:
-			// virtual sleep, only at points where gobgp holds no lock: "bucket" is inside the shared
-			// read lock, and a goroutine blocked on a mutex is not durably blocked, so a sleeper
-			// there would stop virtual time for ever (a harness-made livelock, not gobgp's)
-			if point != "bucket" {
-				time.Sleep(time.Duration(x>>8&1023) * time.Microsecond)
-			} else {
-				runtime.Gosched()
-			}
-		}
-	}})
-	defer verifHookPtr.Store(nil)
+	ysig, ycount, yun := simInstallYield(r.Uint64(), true)
+	defer yun()
 
 	for _, ps := range c01GenPeers(r) {
 		sp, err := n.addPeer(ps)
@@ -448,10 +419,10 @@ func c20History(t *testing.T, rec *vlib.Rec, idx int) {
 	}
 	sort.Strings(ov)
 	if len(ov) > 0 {
-		rec.Nontrivial(fmt.Sprintf("%s|%x", vlib.Hash(strings.Join(ov, ",")), c.sig.Load()))
+		rec.Nontrivial(fmt.Sprintf("%s|%x", vlib.Hash(strings.Join(ov, ",")), ysig()))
 		rec.Count("histories_with_overlapping_ops", 1)
 	}
-	rec.Count("yield_points_reached", int(c.yieldN.Load()))
+	rec.Count("yield_points_reached", int(ycount()))
 	for k, v := range h.events {
 		rec.Count("ev_"+k, v)
 	}
@@ -460,7 +431,7 @@ func c20History(t *testing.T, rec *vlib.Rec, idx int) {
 		for _, o := range c.ops {
 			kinds[o.kind]++
 		}
-		rec.Sample(map[string]any{"case": idx, "events": h.events, "mgmt_ops": kinds, "overlapping_op_kinds": ov, "interleaving_signature": fmt.Sprintf("%x", c.sig.Load()), "gomaxprocs": runtime.GOMAXPROCS(0)})
+		rec.Sample(map[string]any{"case": idx, "events": h.events, "mgmt_ops": kinds, "overlapping_op_kinds": ov, "interleaving_signature": fmt.Sprintf("%x", ysig()), "gomaxprocs": runtime.GOMAXPROCS(0)})
 	}
 }
 
